@@ -1160,13 +1160,64 @@ func c17WorldStreams(t *testing.T, r *c17Run, rnd *vRand) {
 			w.emit("world-corpus")
 		}
 	}
-	for i := 0; i < vBudget(160, 800); i++ {
+	// matrix: every combination of (what the documents hold before the restart) x (config hash of the new
+	// Checkpointer) x (roll-back write fails or not): the whole domain of setLastCheckpointSeq in small scope
+	firsts := [][]c17POp{
+		{},
+		{R(1), E(S(5)), P(S(5)), T},
+		{R(2), E(S(5)), P(S(5)), T},
+		{R(1), E(S(9)), P(S(9)), T},
+	}
+	seconds := [][]c17POp{
+		{},
+		{E(S(8)), P(S(8)), T},
+		{E(S(8)), P(S(8)), Trd},
+		{E(S(8)), P(S(8)), Tld},
+		{c17POp{K: 'x'}},
+		{c17POp{K: 'X'}},
+		{c17POp{K: 'u'}, c17POp{K: 'U'}},
+		{E(S(8)), P(S(8)), Trd, c17POp{K: 'X'}},
+		{E(S(8)), P(S(8)), Trd, c17POp{K: 'x'}},
+		{E(S(0)), P(S(0)), Trd},
+	}
+	for _, a := range firsts {
+		for _, b := range seconds {
+			for _, hb := range []int{1, 2} {
+				for h := 1; h <= 2; h++ {
+					for _, wd := range []bool{false, true} {
+						var ops []c17POp
+						ops = append(ops, a...)
+						if len(b) > 0 {
+							if len(a) == 0 || hb != a[0].H {
+								ops = append(ops, R(hb))
+							} else if hb == 2 {
+								continue // same as hb == 1 for this prefix
+							}
+							ops = append(ops, b...)
+						} else if hb == 2 {
+							continue
+						}
+						ops = append(ops, c17POp{K: 'R', H: h, A: wd}, St, E(S(12)), P(S(12)), T, R(h), St)
+						w := c17NewWorld(r, env, 100)
+						for _, o := range ops {
+							if !w.do(o) {
+								break
+							}
+						}
+						w.emit("world-matrix")
+					}
+				}
+			}
+		}
+	}
+	r.rec.Extra("world_matrix", "setLastCheckpointSeq on every document state reachable by {nothing, checkpoint 5 under h1 / h2, 9 under h1} followed under h1 / h2 by {nothing, 8 stored on both, locally only, not at all, local deleted, remote deleted, both rewritten, local-only then remote deleted, local-only then local deleted, \"0\" locally only} x new config hash h1 / h2 x roll-back write failing or not")
+	for i := 0; i < vBudget(220, 900); i++ {
 		c17SessionWorld(r, env, rnd, false, "world-session")
 	}
-	for i := 0; i < vBudget(60, 300); i++ {
+	for i := 0; i < vBudget(80, 300); i++ {
 		c17SessionWorld(r, env, rnd, true, "world-late")
 	}
-	for i := 0; i < vBudget(120, 600); i++ {
+	for i := 0; i < vBudget(160, 700); i++ {
 		c17AdversarialWorld(r, env, rnd)
 	}
 }
